@@ -35,6 +35,7 @@ type c17Op struct {
 	COrigin string `json:"c_origin,omitempty"`
 	Flag    bool   `json:"flag,omitempty"` // value of the computed append flag (appendVar)
 	Spell   string `json:"spell,omitempty"` // "" | dot (./p) | updown (sub/../p): another spelling of the same file
+	ReadFrom string `json:"read_from,omitempty"` // c_origin "readof": the content is the inline expression read(<this file>), possibly the written file itself
 }
 
 // spelled returns the path as the program spells it; the model always uses Path.
@@ -85,6 +86,7 @@ var c17CharFeatures = []c17Feature{
 	{"glob", func(s string) bool { return strings.ContainsAny(s, "*?[]") }, func(s string) string { return replaceAny(s, "*?[]", "x") }},
 	{"meta", func(s string) bool { return strings.ContainsAny(s, ";&|<>()#~'!{}=%^,:@+") }, func(s string) string { return replaceAny(s, ";&|<>()#~'!{}=%^,:@+", "x") }},
 	{"quote", func(s string) bool { return strings.ContainsAny(s, "\"$`\\") }, func(s string) string { return replaceAny(s, "\"$`\\", "x") }},
+	{"trailnl", func(s string) bool { return strings.HasSuffix(s, "\n") }, func(s string) string { return strings.TrimRight(s, "\n") + "x" }},
 	{"echoopt", func(s string) bool { return reEchoOpt.MatchString(s) }, func(s string) string { return "x" + s[1:] }},
 	{"dash", func(s string) bool { return strings.HasPrefix(s, "-") && !reEchoOpt.MatchString(s) }, func(s string) string { return "x" + s[1:] }},
 }
@@ -103,8 +105,8 @@ func (h *c17Hist) features() []string {
 			}
 			if op.Content != "" && f.Has(op.Content) && op.Kind != "ext-create" {
 				set["C:"+f.Name] = true
-				if f.Name == "quote" && op.COrigin != "runtime" {
-					set["C:quote-in-literal"] = true
+				if f.Name == "quote" && (op.COrigin != "runtime" || strings.HasSuffix(op.Content, "\n")) {
+					set["C:quote-in-literal"] = true // (a run-time origin falls back to a variable for newline-terminated values)
 				}
 			}
 			if op.Kind == "ext-create" && op.Content != "" && f.Has(op.Content) {
@@ -173,7 +175,7 @@ var c17NeutralPaths = []string{"a.txt", "data1", "out.log", "sub/f.txt", "notes"
 var c17ExtPaths = []string{"sp ace.txt", " lead", "trail ", "two  blanks", "-dash", "--", "-n", "st*r", "q?m", "br[a]ck", "a*", "semi;colon", "amp&er", "pipe|p", "lt<gt>",
 	"par(en)", "hash#", "#hash", "~tilde", "quo'te", "dq\"uote", "$dollar", "$HOME", "back\\slash", "tick`t", "tab\there", "sub/sp ace", "excl!", "br{a,b}ce", "eq=ual", "per%cent", "$(id)", "new\nline"}
 var c17NeutralContents = []string{"Hello World", "Hello Moon", "abc", "42", "line one", "x", "The quick brown fox", "key=value", "a,b,c", "UPPER lower 123", "dots.and-dashes_ok", "path/like/value"}
-var c17ExtContents = []string{" lead", "trail ", "two  blanks", "   ", "tab\there", "\tlt", "a\nb", "a\n\nb", "*", "a*", "?", "[a]", "* *", ";", "a;b", "&", "a&&b", "|", "a|b", "<", ">", "a>b", "(", ")", "(x)",
+var c17ExtContents = []string{"", "", "a\n", "two lines\nend\n", "\n", " lead", "trail ", "two  blanks", "   ", "tab\there", "\tlt", "a\nb", "a\n\nb", "*", "a*", "?", "[a]", "* *", ";", "a;b", "&", "a&&b", "|", "a|b", "<", ">", "a>b", "(", ")", "(x)",
 	"#", "# not a comment", "~", "~root", "'", "it's", "\"", "say \"hi\"", "$", "$HOME", "${PATH}", "$(id)", "`id`", "`", "\\", "a\\nb", "\\\\", "C:\\dir", "-n", "-e", "-E", "-neE", "-x", "--", "- n", "-n x",
 	"!", "!!", "{a,b}", "%s", "%d%%", "\\t", "$1", "$?", "a=b"}
 
@@ -224,6 +226,11 @@ func c17Gen(rng *gen.Rng, population string) *c17Hist {
 			return rng.Pick(c17ExtContents)
 		}
 		c := rng.Pick(c17NeutralContents)
+		if rng.Chance(4) {
+			// a long line (2-6 KB)
+			c = strings.Repeat("The quick brown fox jumps over the lazy dog 0123456789 ", rng.Range(40, 110))
+			c = strings.TrimSpace(c)
+		}
 		if rng.Chance(30) {
 			c += " " + fmt.Sprint(rng.Intn(1000)) // make values distinguishable
 		}
@@ -346,6 +353,39 @@ func c17Gen(rng *gen.Rng, population string) *c17Hist {
 			}
 		}
 	}
+	// some writes take their content from an inline read(q) — of another file or of the
+	// written file itself (rewrite, copy): the value is whatever q holds at that moment
+	have := map[string]bool{}
+	for i := range h.Ops {
+		op := &h.Ops[i]
+		switch op.Kind {
+		case "write", "writeF", "append", "appendVar":
+			if len(have) > 0 && rng.Chance(10) {
+				// (the source path is written as a literal: paths with quote characters would only
+				// re-find the listed literal-quoting finding)
+				cands := []string{}
+				for _, k := range sortedKeys(have) {
+					if !strings.ContainsAny(k, "\"$`\\") {
+						cands = append(cands, k)
+					}
+				}
+				if len(cands) == 0 {
+					have[op.Path] = true
+					continue
+				}
+				op.ReadFrom = cands[rng.Intn(len(cands))]
+				if have[op.Path] && rng.Chance(50) && !strings.ContainsAny(op.Path, "\"$`\\") {
+					op.ReadFrom = op.Path
+				}
+				op.COrigin = "readof"
+			}
+			have[op.Path] = true
+		case "ext-create":
+			have[op.Path] = true
+		case "ext-delete":
+			delete(have, op.Path)
+		}
+	}
 	return h
 }
 
@@ -375,7 +415,10 @@ func (h *c17Hist) valid() bool {
 		case "ext-mkdir":
 			dirs[op.Path] = true
 		case "ext-create", "write", "writeF", "append", "appendVar":
-			if !parentOK || dirs[op.Path] || op.Content == "" || strings.HasSuffix(op.Content, "\n") && op.Kind != "ext-create" {
+			if !parentOK || dirs[op.Path] {
+				return false
+			}
+			if op.COrigin == "readof" && !files[op.ReadFrom] {
 				return false
 			}
 			files[op.Path] = true
@@ -491,6 +534,9 @@ func (h *c17Hist) render(seed uint64) []*c17Segment {
 	}
 	seedN := 0
 	operand := func(id int, role string, origin string, val string, pre *strings.Builder) string {
+		if origin == "runtime" && (strings.HasSuffix(val, "\n") || val == "") {
+			origin = "var" // read() cannot deliver a value that ends in a newline: bring it in through a variable
+		}
 		switch origin {
 		case "var":
 			name := fmt.Sprintf("%sv%d", role, id)
@@ -608,7 +654,18 @@ func (h *c17Hist) render(seed uint64) []*c17Segment {
 		case "write", "writeF", "append", "appendVar":
 			var pre strings.Builder
 			pe := operand(id, "p", op.POrigin, op.spelled(), &pre)
-			ce := operand(id, "c", op.COrigin, op.Content, &pre)
+			var ce string
+			if src, ok := m.Files[op.ReadFrom]; op.COrigin == "readof" && ok && !strings.HasSuffix(src, "\n\n") && src != "\n" && src != "" {
+				// the content is read(q) evaluated in place; the model knows what q holds now
+				op.Content = strings.TrimSuffix(src, "\n")
+				ce = "read(" + tshLit(rng, op.ReadFrom) + ")"
+			} else {
+				o := op.COrigin
+				if o == "readof" {
+					o = "literal"
+				}
+				ce = operand(id, "c", o, op.Content, &pre)
+			}
 			pn, cn := fmt.Sprintf("wp%d", id), fmt.Sprintf("wc%d", id)
 			call := ""
 			isAppend := false
@@ -683,8 +740,16 @@ func (h *c17Hist) render(seed uint64) []*c17Segment {
 			}
 			fmt.Fprintf(&sb, "print(\"<<R%d>>\" + rr%d + \"<<E%d>>\")\n", id, id, id)
 			want := m.Files[op.Path]
-			want = strings.TrimRight(want, "\n") // command substitution strips trailing newlines
-			cur.Expect = append(cur.Expect, c17Expect{ID: id, Kind: "read", Want: want, Op: op})
+			// read(p) is specified for what write() produced: the content without its final newline.
+			// When the file ends with an empty line (an empty or newline-terminated content was
+			// written, or another tool created it that way) the property does not say what read
+			// returns, so the result is not compared; the bytes on disk still are.
+			if strings.HasSuffix(want, "\n\n") || want == "\n" {
+				cur.Expect = append(cur.Expect, c17Expect{ID: id, Kind: "read-unspecified", Op: op})
+			} else {
+				want = strings.TrimSuffix(want, "\n")
+				cur.Expect = append(cur.Expect, c17Expect{ID: id, Kind: "read", Want: want, Op: op})
+			}
 			cur.OpIdx = append(cur.OpIdx, i)
 		case "exists":
 			var pre strings.Builder
@@ -852,6 +917,9 @@ func c17Run(r *Run, h *c17Hist, seed uint64, st *c17Stats) (string, string, erro
 		out := so.String()
 		// observations
 		for _, ex := range s.Expect {
+			if ex.Kind == "read-unspecified" {
+				continue
+			}
 			var open string
 			if ex.Kind == "read" {
 				open = fmt.Sprintf("<<R%d>>", ex.ID)
